@@ -13,15 +13,6 @@ import BC.Model.Ammo
 namespace BC.Model
 open BC BC.Gen
 
-/-! ### flags (TrajFlag) -/
-def fNONE : Nat := 0
-def fZERO_UP : Nat := 1
-def fZERO_DOWN : Nat := 2
-def fMACH : Nat := 4
-def fRANGE : Nat := 8
-def fAPEX : Nat := 16
-def fALL : Nat := 31
-
 inductive Reason | minVelocity | maxDrop | minAltitude
   deriving DecidableEq, Repr
 
@@ -119,9 +110,9 @@ structure BaseTraj (α : Type) where
   mach : α
 
 structure Filter (α : Type) where
-  filter : Nat
-  currentFlag : Nat
-  seenZero : Nat
+  filter : Flags
+  currentFlag : Flags
+  seenZero : Flags
   timeStep : α
   rangeStep : α
   timeOfLastRecord : α
@@ -133,14 +124,14 @@ structure Filter (α : Type) where
   prevVMach : α
   lookAngle : α
 
-def Filter.init (flags : Nat) (rangeStep : α) (pos vel : Vec α) (timeStep : α) : Filter α :=
+def Filter.init (flags : Flags) (rangeStep : α) (pos vel : Vec α) (timeStep : α) : Filter α :=
   ⟨flags, fNONE, fNONE, timeStep, rangeStep, 0.0, 0.0, 0.0, 0.0, pos, vel, 0.0, 0.0⟩
 
 /-- `setup_seen_zero(height, barrel_elevation, look_angle)` -/
 def Filter.setupSeenZero (f : Filter α) (height barrelElevation lookAngle : α) : Filter α :=
   let seen :=
-    if 0.0 ≤ height then f.seenZero ||| fZERO_UP
-    else if height < 0.0 ∧ barrelElevation < lookAngle then f.seenZero ||| fZERO_DOWN
+    if 0.0 ≤ height then { f.seenZero with zeroUp := true }
+    else if height < 0.0 ∧ barrelElevation < lookAngle then { f.seenZero with zeroDown := true }
     else f.seenZero
   { f with seenZero := seen, lookAngle := lookAngle }
 
@@ -156,11 +147,13 @@ def Vec.lerp (a b : Vec α) (ratio : α) : Vec α := a.add ((b.sub a).smul ratio
 def Filter.checkZero (f : Filter α) (pos : Vec α) : Filter α :=
   if 0.0 < pos.x then
     let ref := pos.x * Fn.tan f.lookAngle
-    if f.seenZero &&& fZERO_UP = 0 then
-      if ref ≤ pos.y then { f with currentFlag := f.currentFlag ||| fZERO_UP, seenZero := f.seenZero ||| fZERO_UP }
+    if !f.seenZero.zeroUp then
+      if ref ≤ pos.y then { f with currentFlag := { f.currentFlag with zeroUp := true },
+                                   seenZero := { f.seenZero with zeroUp := true } }
       else f
-    else if f.seenZero &&& fZERO_DOWN = 0 then
-      if pos.y < ref then { f with currentFlag := f.currentFlag ||| fZERO_DOWN, seenZero := f.seenZero ||| fZERO_DOWN }
+    else if !f.seenZero.zeroDown then
+      if pos.y < ref then { f with currentFlag := { f.currentFlag with zeroDown := true },
+                                   seenZero := { f.seenZero with zeroDown := true } }
       else f
     else f
   else f
@@ -168,7 +161,7 @@ def Filter.checkZero (f : Filter α) (pos : Vec α) : Filter α :=
 /-- `check_mach_crossing(velocity, mach)` -/
 def Filter.checkMach (f : Filter α) (velocity mach : α) : Filter α :=
   let cur := velocity / mach
-  let f' := if 1.0 < f.prevVMach ∧ cur ≤ 1.0 then { f with currentFlag := f.currentFlag ||| fMACH } else f
+  let f' := if 1.0 < f.prevVMach ∧ cur ≤ 1.0 then { f with currentFlag := { f.currentFlag with mach := true } } else f
   { f' with prevVMach := cur }
 
 /-- `should_record(position, velocity, mach, time)`; `skipFuel` bounds the skip loop -/
@@ -183,18 +176,18 @@ def Filter.shouldRecord (f : Filter α) (skipFuel : Nat) (pos vel : Vec α) (mac
           some ⟨lerp f.prevTime time ratio, f.prevPos.lerp pos ratio, f.prevVel.lerp vel ratio,
                 lerp f.prevMach mach ratio⟩
         else none
-      ({ f with currentFlag := f.currentFlag ||| fRANGE, nextRecordDistance := nrd + f.rangeStep,
+      ({ f with currentFlag := { f.currentFlag with range := true }, nextRecordDistance := nrd + f.rangeStep,
                 timeOfLastRecord := time }, data)
     else if 0.0 < f.timeStep then
       -- check_next_time
       if f.timeOfLastRecord + f.timeStep < time then
-        ({ f with currentFlag := f.currentFlag ||| fRANGE, timeOfLastRecord := time }, none)
+        ({ f with currentFlag := { f.currentFlag with range := true }, timeOfLastRecord := time }, none)
       else (f, none)
     else (f, none)
   let f2 := f1.checkZero pos
   let f3 := f2.checkMach vel.mag mach
   let data' :=
-    if f3.currentFlag &&& f3.filter ≠ 0 ∧ data.isNone then some ⟨time, pos, vel, mach⟩ else data
+    if f3.currentFlag.anyCommon f3.filter && data.isNone then some ⟨time, pos, vel, mach⟩ else data
   ({ f3 with prevTime := time, prevPos := pos, prevVel := vel, prevMach := mach }, data')
 
 /-! ### the loop -/
@@ -236,7 +229,7 @@ def initialState (r : Run α) (barrelElevation : α) : St α :=
                      Fn.cos barrelElevation * Fn.sin r.barrelAzimuth⟩
   ⟨pos, dir.smul r.muzzleVelocity, 0.0⟩
 
-def mkRow (r : Run α) (time : α) (pos vel : Vec α) (speed mach density drag : α) (flag : Nat) : Option (Row α) :=
+def mkRow (r : Run α) (time : α) (pos vel : Vec α) (speed mach density drag : α) (flag : Flags) : Option (Row α) :=
   createRow time pos vel speed mach (spinDrift r.proj time) r.proj.lookAngle density drag r.proj.weight flag
 
 /-- which limit the post-step state violates, in the code's order of precedence -/
@@ -270,10 +263,10 @@ def physIter (r : Run α) : Nat → St α → WindSock α → Option (St α × W
     | some p => physIter r n p.out.st p.ws
 
 /-- what the recorder does in one iteration: the filter after `should_record` and the row (if any) -/
-def recordStep (r : Run α) (filterFlags skipFuel : Nat) (l : LoopSt α) (density mach : α) :
+def recordStep (r : Run α) (filterFlags : Flags) (skipFuel : Nat) (l : LoopSt α) (density mach : α) :
     Except (Err α) (Filter α × List (Row α)) :=
   let flt := { l.flt with currentFlag := fNONE }
-  if filterFlags ≠ 0 then
+  if !filterFlags.isNone then
     let (flt', data) := flt.shouldRecord skipFuel l.s.pos l.s.vel mach l.s.time
     match data with
     | some d =>
@@ -284,7 +277,7 @@ def recordStep (r : Run α) (filterFlags skipFuel : Nat) (l : LoopSt α) (densit
   else .ok (flt, l.rows)
 
 /-- one iteration of the `while` body -/
-def iterate (r : Run α) (filterFlags skipFuel : Nat) (l : LoopSt α) : Except (Err α) (LoopSt α) :=
+def iterate (r : Run α) (filterFlags : Flags) (skipFuel : Nat) (l : LoopSt α) : Except (Err α) (LoopSt α) :=
   match physStep r l.s l.ws with
   | none => .error .mathDomain
   | some p =>
@@ -299,7 +292,7 @@ def iterate (r : Run α) (filterFlags skipFuel : Nat) (l : LoopSt α) : Except (
         | none => .error .zeroDiv
       | none => .ok ⟨o.st, p.ws, flt', rows, o.drag, p.mach, p.density, o.speed⟩
 
-def loop (r : Run α) (filterFlags skipFuel : Nat) (bound : α) : Nat → LoopSt α → Except (Err α) (LoopSt α)
+def loop (r : Run α) (filterFlags : Flags) (skipFuel : Nat) (bound : α) : Nat → LoopSt α → Except (Err α) (LoopSt α)
   | 0, _ => .error .outOfFuel
   | fuel + 1, l =>
     if l.s.pos.x ≤ bound then
@@ -311,7 +304,7 @@ def loop (r : Run α) (filterFlags skipFuel : Nat) (bound : α) : Nat → LoopSt
 def minOf (a b : α) : α := if b < a then b else a
 
 /-- `_integrate(shot, maximum_range, record_step, filter_flags, time_step)` → rows in order -/
-def integrate (r : Run α) (barrelElevation maxRange recordStep : α) (filterFlags : Nat) (timeStep : α)
+def integrate (r : Run α) (barrelElevation maxRange recordStep : α) (filterFlags : Flags) (timeStep : α)
     (fuel skipFuel : Nat) : Except (Err α) (List (Row α)) :=
   let s0 := initialState r barrelElevation
   let minStep := minOf r.cfg.calcStep recordStep
